@@ -22,7 +22,7 @@ REQUIRED = {"quick": ["oracle:C08.mutator-gated", "oracle:C08.reader-pure", "ora
 
 def plan(tier, seed):
     if tier == "quick":
-        return [{"kind": "matrix"}] + [{"kind": "interleave", "shard": s, "n": 120} for s in range(3)]
+        return [{"kind": "matrix"}] + [{"kind": "interleave", "shard": s, "n": 500} for s in range(4)]
     return [{"kind": "matrix"}] + [{"kind": "interleave", "shard": s, "n": 2500} for s in range(12)] + \
            [{"kind": "strace", "n": 150}]
 
